@@ -159,13 +159,12 @@ namespace Pistache::Http::Header
                                 "Invalid caching directive, missing delta-seconds");
                         }
 
+                        // the value is a length-delimited slice without a terminator:
+                        // convert from a bounded, terminated copy
+                        const std::string text(cursor.offset(), cursor.remaining());
                         char* end;
-                        const char* beg = cursor.offset();
-                        // @Security: if str is not \0 terminated, there might be a situation
-                        // where strtol can overflow. Double-check that it's harmless and fix
-                        // if not
-                        auto secs = strtol(beg, &end, 10);
-                        cursor.advance(end - beg);
+                        auto secs = strtol(text.c_str(), &end, 10);
+                        cursor.advance(static_cast<size_t>(end - text.c_str()));
                         if (!cursor.eof() && cursor.current() != ',')
                         {
                             throw std::runtime_error(
